@@ -29,6 +29,13 @@
 #include <urcu/list.h>
 #include <urcu/futex.h>
 #include <urcu/tls-compat.h>
+#ifdef URCU_VERIF
+#include <urcu/verif.h>
+#else
+#ifndef urcu_verif_point
+#define urcu_verif_point(id, ctx) do { } while (0)
+#endif
+#endif
 
 #ifdef __cplusplus
 extern "C" {
@@ -80,7 +87,9 @@ struct urcu_reader {
 static inline void urcu_common_wake_up_gp(struct urcu_gp *gp)
 {
 	if (caa_unlikely(uatomic_load(&gp->futex) == -1)) {
+		urcu_verif_point(URCU_VP_WAKE_GP_MID, gp);
 		uatomic_store(&gp->futex, 0);
+		urcu_verif_point(URCU_VP_WAKE_GP_PRE_SYSCALL, gp);
 		/*
 		 * Ignoring return value until we can make this function
 		 * return something (because urcu_die() is not publicly
